@@ -3,7 +3,7 @@
    schedule of: a creator thread (five construction modes, among them late initialisation through get_promise() on a
    default-constructed handle or on a copy of an init_if_needed() handle), one resolver (value / exception / drop) and
    any number of user threads that copy, poll, co_await, sync(), subscribe a callback awaiter and drop handles. *)
-From Cocls Require Import Base BaseProofs SharedDefs SharedProofs SharedProofs2.
+From Cocls Require Import Base BaseProofs SharedDefs SharedProofs SharedProofs2 SharedProofs3.
 Local Open Scope nat_scope.
 
 (* the state is never destroyed while the future is pending, even when every handle has been dropped *)
@@ -51,6 +51,29 @@ Print Assumptions c17_no_access_after_free.
 Theorem c17_awaiters_linked_once : forall ops s w, reachable ops s -> occ s w = inl (users s) w.
 Proof. exact awaiters_linked_once. Qed.
 Print Assumptions c17_awaiters_linked_once.
+
+(* all copies observe the same single result: whatever any user picked up through its handle or a copy of it — by
+   co_await, sync(), a callback awaiter or a poll — is the resolver's declared result (a poll may also see "not ready") *)
+Theorem c17_one_result_all_copies : forall ops s j u o,
+  reachable ops s -> nth_error (users s) j = Some u -> useen u = Some o ->
+  o = result_of_ops ops \/ (ukd u = UKPoll /\ o = ONotReady).
+Proof. exact one_result_all_copies. Qed.
+Print Assumptions c17_one_result_all_copies.
+
+(* an awaiter of any copy is never resumed twice; it has been resumed (once, with the result) iff it has finished *)
+Theorem c17_awaiters_once : forall ops s j u k,
+  reachable ops s -> nth_error (users s) j = Some u -> ukd u = UKAwait k ->
+  uruns u <= 1 /\ (upcf u = UDone -> uruns u = 1 /\ useen u = Some (result_of_ops ops)) /\
+  (upcf u <> UDone -> uruns u = 0 /\ useen u = None).
+Proof. exact awaiters_once. Qed.
+Print Assumptions c17_awaiters_once.
+
+(* when nothing can run any more every awaiter has been resumed exactly once with the one result *)
+Theorem c17_every_awaiter_resumed_once : forall ops s j u k,
+  reachable ops s -> terminal s -> nth_error (users s) j = Some u -> ukd u = UKAwait k ->
+  uruns u = 1 /\ useen u = Some (result_of_ops ops).
+Proof. exact terminal_awaiters. Qed.
+Print Assumptions c17_every_awaiter_resumed_once.
 
 (* the promise always reaches the resolver and every user gets its handle (progress of the creator) *)
 Theorem c17_creator_progress : forall ops s, reachable ops s -> Prog s.
